@@ -71,13 +71,13 @@ package ljh
 //@ func (*Writer).CreateFile
 //@   props C05
 //@   ensures once: old(w.file) != nil ==> result != nil && unchanged(w.file, w.writer)
-//@   ensures created: result == nil ==> w.file != nil && w.writer != nil && fresh(w.writer) && w.writer.n == 0 && w.writer.items == 0 && WInv(w.writer)
+//@   ensures created: result == nil ==> w.file != nil && w.writer != nil && fresh(w.writer) && allocated(w.writer) && w.writer.n == 0 && w.writer.items == 0 && WInv(w.writer)
 //@   ensures works: !IOFaults() && old(w.file) == nil ==> result == nil
 //@   modifies w.file, w.writer
 //@ func (*Writer3).CreateFile
 //@   props C05
 //@   ensures once: old(w.file) != nil ==> result != nil && unchanged(w.file, w.writer)
-//@   ensures created: result == nil ==> w.file != nil && w.writer != nil && fresh(w.writer) && w.writer.n == 0 && w.writer.items == 0 && WInv(w.writer)
+//@   ensures created: result == nil ==> w.file != nil && w.writer != nil && fresh(w.writer) && allocated(w.writer) && w.writer.n == 0 && w.writer.items == 0 && WInv(w.writer)
 //@   ensures works: !IOFaults() && old(w.file) == nil ==> result == nil
 //@   modifies w.file, w.writer
 
